@@ -364,8 +364,13 @@ def run(ctx):
     if tape.boolean("eio", 1, 6):
         eio_nth = 1 + tape.draw(12, "eio.nth")
     ops = plan_ops(ctx, spec, route)
+    # drawn last (and recorded only when not the default) so that tapes stored before this decision existed keep their meaning
+    fai_final_newline = not (source == "model" and tape.boolean("fai.no_final_newline", 1, 4))
     ctx.scenario = dict(describe(spec, data), index_source=source, route=route, k=k, eio_nth=eio_nth,
                         ops=render_ops(ops))
+    if not fai_final_newline:
+        ctx.scenario["fai_final_newline"] = False
+        ctx.probe("supplied_fai_without_final_newline")
 
     # ---- static probes
     for r in spec["records"]:
@@ -393,7 +398,8 @@ def run(ctx):
     fs = _FS(event_budget=200000)
     fs.put(PATH, data)
     if source == "model":
-        fs.put(FAI, F.render_fai(rows))
+        fai_blob = F.render_fai(rows)
+        fs.put(FAI, fai_blob if fai_final_newline else fai_blob[:-1])
     if eio_nth is not None:
         fs.plant_eio(PATH, "read", eio_nth)
     w = _World(ctx, spec, data, rows, fs, source, route, k)
